@@ -98,8 +98,12 @@ def main(argv=None):
     from verif import rt
     P = importlib.import_module("verif.props." + prop)
     specs = []
+    skipped_tier = []
     for k in getattr(P, "CONTRACTS", []):
-        specs.append(("contract", prop, k, tier, seed))
+        if tier in verifier.REG.contracts[k].tiers:
+            specs.append(("contract", prop, k, tier, seed))
+        else:
+            skipped_tier.append(k)
     for k, _ in getattr(P, "TABLES", []):
         specs.append(("table", prop, k, tier, seed))
     for k, _ in getattr(P, "BOUNDED", []):
@@ -251,6 +255,7 @@ def main(argv=None):
             "undecided": undecided[:50], "checker_errors": crashes[:20],
             "bounded_checks": bounded_summary,
             "known_findings_matched": {k: len(v) for k, v in known_hits.items()},
+            "contracts_deductive_only_in_thorough_tier": skipped_tier,
             "exhaustive": False,
         },
         "assumptions": getattr(P, "ASSUMPTIONS", []),
